@@ -20,6 +20,7 @@ type outcome struct {
 	Tuple       string    `json:"tuple"`
 	Cancelled   bool      `json:"cancelled,omitempty"`
 	CancelPhase string    `json:"cancel_phase,omitempty"`
+	ByDeadline  bool      `json:"left_by_context_deadline,omitempty"`
 	Faulted     bool      `json:"faulted,omitempty"`
 	Returned    bool      `json:"returned"`
 	SubErr      string    `json:"subscribe_err_class"`
@@ -64,6 +65,8 @@ type runReport struct {
 	Tuples            int
 	ClosedAfterLast   int // connections observed closed by the client after their last subscription ended
 	WSClosedAfterLast int
+	Outlived          int // WebSocket connections convicted of outliving their last subscription
+	IdleTicksWaited   int64
 }
 
 // judge evaluates the run against the statement. It must be called after the scenario's own
@@ -122,8 +125,14 @@ func (e *env) judge() *runReport {
 
 	for _, s := range subs {
 		s.mu.Lock()
-		o := outcome{Key: s.key, Tuple: s.tup.Name, Cancelled: s.cancelled, CancelPhase: s.cancelPhase, Faulted: s.faulted, Returned: s.returned,
+		o := outcome{Key: s.key, Tuple: s.tup.Name, Cancelled: s.cancelled || s.leaves, CancelPhase: s.cancelPhase, Faulted: s.faulted, Returned: s.returned,
 			SubErr: errClass(s.subErr), CtxLive: s.ctxLiveAtReturn, Events: append([]cevent(nil), s.evs...), HookHits: s.hookHits, tup: s.tup}
+		if s.leaves {
+			o.ByDeadline = true
+			if o.CancelPhase == "" {
+				o.CancelPhase = s.leavePhase
+			}
+		}
 		if s.subErr != nil {
 			o.SubErrText = truncate(s.subErr.Error(), 300)
 		}
@@ -331,8 +340,103 @@ func (e *env) judge() *runReport {
 	return rep
 }
 
+// minIdleUnit is the timer length used for the idle-period count when the configured idle period is
+// shorter (or zero: the close is then due at once); outlivedIdlePeriods is how many consecutive
+// timers must have fired, with every subscriber gone, before a connection that is still open is
+// convicted of outliving its last subscription. 100 x max(idle, 40 ms) is at most the 8 s
+// quiescence watchdog for the idle periods used here (<= 80 ms).
+const (
+	minIdleUnit         = 40 * time.Millisecond
+	outlivedIdlePeriods = 100
+)
+
+func firstStrings(s []string, n int) []string {
+	if len(s) > n {
+		return s[:n]
+	}
+	return s
+}
+
+// awaitConnsGone is called at a point where no subscriber is left (every subscription was ended by
+// its subscriber or by an upstream terminal and every Subscribe call has returned), i.e. the
+// logical activity is idle: the client's Stats() and the upstream's open connection count must
+// return to zero. Returns true when they did.
+//
+// A chain of harness timers of the configured idle period (at least minIdleUnit) counts how many
+// idle periods pass meanwhile. A WebSocket connection that the upstream still sees open after
+// outlivedIdlePeriods consecutive timers is convicted of outliving its last subscription
+// (cleanup.conn-outlives-idle, remembered in e.outlived); everything else that keeps the counts from
+// returning to zero within the quiescence watchdog makes the run inconclusive, as does a process so
+// starved that the timers did not fire within the watchdog.
+func (e *env) awaitConnsGone() bool {
+	e.mu.Lock()
+	convicted := len(e.outlived) > 0
+	subs := append([]*subscriber(nil), e.subs...)
+	e.mu.Unlock()
+	if convicted || e.failed() {
+		return false
+	}
+	unit := e.idle
+	if unit < minIdleUnit {
+		unit = minIdleUnit
+	}
+	tk := startTicks(unit, e.note)
+	defer tk.stop()
+	quiescent := func() bool {
+		st := e.cl.Stats()
+		return st.WSConns == 0 && st.SSEConns == 0 && e.up.openCount() == 0
+	}
+	// the watchdog leaves room for the timers (100 x 80 ms = 8 s for the longest idle period used)
+	e.note.until(2*quiescenceWatchdog, func() bool {
+		return quiescent() || (tk.n.Load() >= outlivedIdlePeriods && len(e.up.openWS()) > 0)
+	})
+	ok := quiescent()
+	n := tk.n.Load()
+	e.mu.Lock()
+	e.idleTicksWaited = n
+	e.mu.Unlock()
+	if ok {
+		return true
+	}
+	st := e.cl.Stats()
+	leaked := e.up.openWS()
+	switch {
+	case len(leaked) > 0 && n >= outlivedIdlePeriods:
+		var devs []deviation
+		for _, ci := range leaked {
+			last, live := -1, 0
+			for _, k := range ci.Subs {
+				for _, s := range subs {
+					if s.key == k && s.idx > last {
+						last = s.idx
+					}
+				}
+			}
+			for _, l := range ci.liveSubs {
+				if l {
+					live++
+				}
+			}
+			devs = append(devs, deviation{SubIdx: last, Kind: "cleanup.conn-outlives-idle",
+				Msg: fmt.Sprintf("%s: upstream connection %d (carried %d subscriptions: %v) is still open although no subscriber is left and %d consecutive timers of %s have fired since (configured idle period %s); client Stats() ws=%d sse=%d",
+					e.tag, ci.ID, len(ci.Subs), firstStrings(ci.Subs, 8), n, unit, e.idle, st.WSConns, st.SSEConns),
+				Facts: map[string]string{"idle_period_configured": fmt.Sprint(e.idle > 0), "client_still_registers_conn": fmt.Sprint(st.WSConns > 0),
+					"conn_carried_subscriptions": fmt.Sprint(len(ci.Subs) > 0), "conn_established": fmt.Sprint(ci.Acked), "upstream_considers_a_subscription_live": fmt.Sprint(live > 0)}})
+		}
+		e.mu.Lock()
+		e.outlived = devs
+		e.mu.Unlock()
+	case e.up.openCount() == 0 && (st.WSConns != 0 || st.SSEConns != 0):
+		// no connection is left at the upstream, only the client's registry still counts one
+		e.fail("stale-stats", "every upstream connection is closed but client Stats() does not return to 0")
+	default:
+		e.fail("watchdog", "quiescence: client Stats() and upstream open connections back to 0")
+	}
+	return false
+}
+
 // finish: cleanup cancel of everything still alive, then quiescence: the client's Stats() and the
-// upstream's open connection count return to zero (bounded progress; watchdog -> inconclusive).
+// upstream's open connection count return to zero (awaitConnsGone).
 func (e *env) finish(rep *runReport) {
 	e.mu.Lock()
 	subs := append([]*subscriber(nil), e.subs...)
@@ -353,21 +457,12 @@ func (e *env) finish(rep *runReport) {
 			e.wait("Subscribe of "+s.key+" to return after cleanup", s.isReturned)
 		}
 	}
-	ok := false
-	if !e.failed() {
-		ok = e.note.until(quiescenceWatchdog, func() bool {
-			st := e.cl.Stats()
-			return st.WSConns == 0 && st.SSEConns == 0 && e.up.openCount() == 0
-		})
-		if !ok {
-			if st := e.cl.Stats(); e.up.openCount() == 0 && (st.WSConns != 0 || st.SSEConns != 0) {
-				// no connection is left at the upstream, only the client's registry still counts one
-				e.fail("stale-stats", "every upstream connection is closed but client Stats() does not return to 0")
-			} else {
-				e.fail("watchdog", "quiescence: client Stats() and upstream open connections back to 0")
-			}
-		}
-	}
+	ok := e.awaitConnsGone()
+	e.mu.Lock()
+	rep.Devs = append(rep.Devs, e.outlived...)
+	rep.Outlived = len(e.outlived)
+	rep.IdleTicksWaited = e.idleTicksWaited
+	e.mu.Unlock()
 	if ok {
 		for _, ci := range e.up.snapshot() {
 			if ci.Acked && strings.HasPrefix(ci.ClosedBy, "client-close") {
@@ -378,7 +473,7 @@ func (e *env) finish(rep *runReport) {
 				rep.ClosedAfterLast++
 			}
 		}
-	} else if rep.Inconclusive == "" {
+	} else if rep.Inconclusive == "" && e.failed() {
 		e.mu.Lock()
 		rep.Inconclusive = e.inconclusive
 		e.mu.Unlock()
@@ -401,6 +496,7 @@ func emit(res *fw.Result, kind string, control, exp *runReport, param any) {
 		res.Count("shared_conns", int64(r.Shared))
 		res.Count("conns_closed_after_last_sub", int64(r.ClosedAfterLast))
 		res.Count("ws_conns_closed_after_last_sub", int64(r.WSClosedAfterLast))
+		res.Count("ws_conns_outliving_last_sub", int64(r.Outlived))
 		res.Count("hook_ws.subscribe.beforeWrite", r.HookHits)
 		for ph, n := range r.Cancels {
 			res.Count("cancel_"+ph, int64(n))
